@@ -19,6 +19,8 @@ W2 = "FteikVerif.Proofs.GenEquivWhole2"
 W2R = "FteikVerif.Proofs.GenWholeReal"
 W3 = "FteikVerif.Proofs.GenEquivWhole3"
 GL = "FteikVerif.Proofs.GenList"
+GLI = "FteikVerif.Proofs.GenListInterp"
+GLV = "FteikVerif.Proofs.GenListVInterp"
 SRCW3 = "FteikVerif.Props.SourceWhole3"
 SRCW = "FteikVerif.Props.SourceWhole2"
 SRCS = "FteikVerif.Props.SourceSolver"
@@ -66,15 +68,20 @@ TABLE = {
     "C03": ([GS], GENSOLVER, ["F2.fteik2d", "F3.fteik3d"]),
     "C13": ([GS, GL], GENSOLVER + GENLIST, ["F2.fteik2d", "F3.fteik3d", "F2.fteik2d_vectorized", "F3.fteik3d_vectorized"]),
     # the list ("vectorized") solvers as translated: a list call is the map of the single calls
-    "C08": ([GL], GENLIST, ["F2.fteik2d", "F3.fteik3d", "F2.fteik2d_vectorized", "F3.fteik3d_vectorized"]),
+    "C08": ([GL, GLI, GLV], GENLIST + ["Fteik.gen_interp2d_list", "Fteik.gen_interp3d_list", "Fteik.gen_vinterp2d_list",
+                                       "Fteik.gen_vinterp3d_list", "Fteik.foldl_set_each"],
+            ["F2.fteik2d", "F3.fteik3d", "F2.fteik2d_vectorized", "F3.fteik3d_vectorized", "I2._interp2d_vectorized",
+             "I3._interp3d_vectorized", "V2._vinterp2d_vectorized", "V3._vinterp3d_vectorized"]),
     # structure only: insensitive to the operator formulas
     "C07": ([ST], STRUCT, ["F2.sweep", "F3.sweep"]),
     "C11": ([ST], GRADI, ["F2.sweep", "F3.sweep"]),
     # interpolators
-    "C14": ([IN, SRCI], INTERP + ["Fteik.Source_C14_interp2d_weights"], KI),
+    "C14": ([IN, SRCI, GLI], INTERP + ["Fteik.Source_C14_interp2d_weights", "Fteik.gen_interp2d_list", "Fteik.gen_interp3d_list"],
+            KI + ["I2._interp2d_vectorized", "I3._interp3d_vectorized"]),
     "C16": ([IN], INTERP[:1], KI[:1]),
     "C06": ([IN], INTERP[:1], KI[:1]),
-    "C09": ([VI, SRCV], VINTERP + ["Fteik.Source_C09_vinterp2d_at_source"], KV),
+    "C09": ([VI, SRCV, GLV], VINTERP + ["Fteik.Source_C09_vinterp2d_at_source", "Fteik.gen_vinterp2d_list", "Fteik.gen_vinterp3d_list"],
+            KV + ["V2._vinterp2d_vectorized", "V3._vinterp3d_vectorized"]),
 }
 
 
